@@ -251,6 +251,50 @@ fn plan_inner(reg: &Registry, prop: Prop, rng: &mut Prng, lim: &Limits) -> Plan 
     }
 }
 
+/// Structured byte patterns: defects that depend on particular byte values (a lane that goes wrong when
+/// a byte is 0x00 / 0x80 / 0xff, all bytes equal, a single set bit) hide from uniformly random data.
+pub fn special_bytes(rng: &mut Prng, n: usize) -> Vec<u8> {
+    if n == 0 {
+        return Vec::new();
+    }
+    const VALS: [u8; 8] = [0x00, 0xff, 0x80, 0x01, 0x7f, 0xfe, 0x1b, 0x63];
+    match rng.below(7) {
+        0 => vec![*rng.pick(&VALS); n],
+        1 => {
+            let b = rng.next() as u8;
+            vec![b; n]
+        }
+        2 => {
+            // a single set bit
+            let mut v = vec![0u8; n];
+            let i = rng.below(n as u64) as usize;
+            v[i] = 1 << rng.below(8);
+            v
+        }
+        3 => {
+            // a single cleared bit
+            let mut v = vec![0xffu8; n];
+            let i = rng.below(n as u64) as usize;
+            v[i] = !(1 << rng.below(8));
+            v
+        }
+        4 => {
+            // random with a few special bytes planted
+            let mut v = rng.bytes(n);
+            for _ in 0..rng.range(1, 4) {
+                let i = rng.below(n as u64) as usize;
+                v[i] = *rng.pick(&VALS);
+            }
+            v
+        }
+        5 => (0..n).map(|i| i as u8).collect(),
+        _ => {
+            // every byte drawn from the special values
+            (0..n).map(|_| *rng.pick(&VALS)).collect()
+        }
+    }
+}
+
 pub struct Gen {
     pub next_id: u32,
     /// (task, id)
@@ -333,6 +377,7 @@ impl Gen {
         let key = key.unwrap_or_else(|| match rng.below(24) {
             0 => vec![0u8; klen],
             1 => vec![0xffu8; klen],
+            2..=4 => special_bytes(rng, klen),
             _ => rng.bytes(klen),
         });
         self.keys_seen.push((f, key.clone()));
@@ -507,7 +552,7 @@ impl Gen {
             let b = a + len + gap;
             if rng.chance(1, 2) { (a, b) } else { (b, a) }
         };
-        let data = rng.bytes(len);
+        let data = if rng.chance(1, 7) { special_bytes(rng, len) } else { rng.bytes(len) };
         self.call_steps.push(w.step as u32);
         Op::Call { id, task, dir, shape, n: n as u32, in_off: in_off as u32, out_off: out_off as u32, data }
     }
